@@ -13,8 +13,9 @@ From P2 Require Import Base.Prelude Sem.Num Sem.Syntax Sem.Ops Sem.Lib Sem.Ref S
 Definition undecided {A} (r : res A) : bool := match r with OOF | Unsup => true | _ => false end.
 Definition decided {A} (r : res A) : Prop := undecided r = false.
 
-(* related outcomes, except that the right-hand side may be inexact *)
-Definition wrel {A B} (Q : A -> B -> Prop) (r : res A) (r' : res B) : Prop := r' = Unsup \/ rrel Q r r'.
+(* related outcomes (the name is kept from the version of the proof in which the optimized side was
+   allowed to be inexact; with the exact regrouping law it never is) *)
+Definition wrel {A B} (Q : A -> B -> Prop) (r : res A) (r' : res B) : Prop := rrel Q r r'.
 
 (* "same value or both fail", exact arithmetic: nothing is claimed when a side is inexact *)
 Definition req (r1 r2 : res value) : Prop := r1 = Unsup \/ r2 = Unsup \/ r1 = r2.
@@ -167,6 +168,13 @@ Inductive arel : list (name * value) -> ast -> ast -> Prop :=
     arel s recv recv' -> Forall2 (arel s) args args' ->
     arel s (AMethod recv mname args) (AMethod recv' mname args')
 | ar_step s a t t' : arel s a t -> closed t -> seq known t t' -> arel s a t'
+| ar_gstep s a t v :
+    (* a closed redex replaced by the value that generated code computed for it at Generate time: the
+       reference semantics gives a value that the C01 relation relates to it (the generator's closures
+       capture only what they use) *)
+    arel s a t -> closed t ->
+    (exists k v1, (forall env, eval known k env t = Ok v1) /\ Sim.vrel v1 v) ->
+    arel s a (AConst v)
 
 with vrel : value -> value -> Prop :=
 | vr_int z : vrel (VInt z) (VInt z)
@@ -200,7 +208,6 @@ Definition fvp (t : ast) : name -> Prop := fun x => fv x t = true.
 
 Definition orel : res value -> res value -> Prop := rrel vrel.
 
-(* the optimized program may be inexact where the unoptimized one is exact (regrouped floats) *)
 Definition R : res value -> res value -> Prop := wrel vrel.
 Definition Rl : res (list value) -> res (list value) -> Prop := wrel (Forall2 vrel).
 
